@@ -21,6 +21,7 @@ RULE = ("one live case (real sockets; the running kernel's /proc/net files are p
         "(every byte value at every address position in the exhaustive part), hosts without IPv6 (inet_ntop failing, supports_ipv6() "
         "True/False), a malformed stream (mutated lines, odd links) and targeted malformed inputs (TCP/UDP line of 0-9 / exactly 10 fields, "
         "UNIX junk line without blank, short UNIX line with a blank, exactly 7 fields, process without sockets over tables that would raise). "
+        "Four fork cases: a thread parked inside retrieve(), os.fork(), the child must answer every call (hang = violation). " +
         "Per call three observations are compared: returned list (duplicates kept), add() sequence (multiset), /proc/net access log. "
         "A case is non-trivial when it has at least one socket; distinct = distinct canonical case hash.")
 LIVE = ("one live case per run: 21 real sockets (TCP listen/connected v4+v6, UDP, UNIX path/abstract/unbound/socketpair), the real "
@@ -386,9 +387,9 @@ MALFORMED = ["inet-short", "inet-ten", "unix-766", "unix-short-blank", "unix-sev
 
 
 def gen_cases(rng, tier):
-    n_state = {"quick": 160, "thorough": 2500, "search": 400}[tier]
-    n_raw = {"quick": 80, "thorough": 1200, "search": 150}[tier]
-    n_addr = {"quick": 150, "thorough": 2000, "search": 150}[tier]
+    n_state = {"quick": 120, "thorough": 2500, "search": 400}[tier]
+    n_raw = {"quick": 60, "thorough": 1200, "search": 150}[tier]
+    n_addr = {"quick": 100, "thorough": 2000, "search": 150}[tier]
     cases = []
     # ---- enumerated parts
     cases.append(_mk_state_case(rng, _all_classes_state()))
@@ -433,6 +434,15 @@ def gen_cases(rng, tier):
     ports = [0, 1, 255, 256, 4095, 4096, 65535] + (list(range(0, 65536, 257)) if tier == "thorough" else [])
     for p in ports:
         cases.append({"kind": "addr", "cls": "addr-port", "le": True, "o": [True, True], "ip": [10, 0, 0, 5], "port": p})
+    # ---- fork: a thread is parked inside retrieve(), the main thread forks, the child must answer (4 per run)
+    for i, park in enumerate(["system", "process", "system", "process"]):
+        st = _all_classes_state() if i < 2 else _state(rng, [1, 2, 3], "ushared")
+        c = _mk_state_case(rng, st)
+        c["kind"], c["cls"], c["park"] = "fork", "fork-" + park, park
+        c["kinds"] = ["all", "unix", "inet", "bogus"]
+        vis = [j for j, p in enumerate(st["procs"]) if p["visible"]] or [0]
+        c["sel"] = [[vis[0], ["all", "tcp"]]]
+        cases.append(c)
     # ---- live: real sockets, the running kernel's /proc/net files and fd links (validates the kernel printers of Spec.v)
     if tier != "search":
         c = live.snapshot()
@@ -591,7 +601,7 @@ def _degenerate(rng, st, p=1.0, only=None):
 
 def coq_term(case):
     k = case["kind"]
-    if k in ("state", "live"):
+    if k in ("state", "live", "fork"):
         def tbl(name, wide):
             v = case[name]
             if v is None:
@@ -641,7 +651,7 @@ def coq_struct(case, raw):
     if k == "live":
         # the records were parsed from the running kernel's files: the spec's printers must give those bytes back
         live.check_printed(case, [None if x is None else unB(x) for x in raw[0]])
-    if k in ("state", "live"):
+    if k in ("state", "live", "fork"):
         sysm = [_comp(x, False) for x in raw[2]]
         procm = [[_comp(x, True) for x in per] for per in raw[3]]
         syse = [[x[3], x[4]] for x in raw[2]]
@@ -714,7 +724,7 @@ def _call_ok(comp, entries, slog, per_process, check_log=True):
 
 
 def finding_key(case, coq):
-    if case["kind"] not in ("state", "live"):
+    if case["kind"] not in ("state", "live", "fork"):
         return None
     if not EXACT_UNIX_PATH and any(u["path"] is not None and bytes.fromhex(u["path"])[:1]
                                    and bytes.fromhex(u["path"])[0] in WS for u in case["unix"]):
@@ -765,7 +775,7 @@ def judge(case, coq, impl):
                                "files_text_safe false): %r" % ({n: case[t] for n, t in live.TABLE.items()},))
         problems.extend(impl[2])
         impl = impl[:2]
-    if k in ("state", "live") and coq["wf"]:
+    if k in ("state", "live", "fork") and coq["wf"]:
         syse, proce = coq["entries"]
         for kind, got, (ent, slog) in zip(case["kinds"], impl[0], syse):
             if kind not in KINDS:
@@ -792,7 +802,7 @@ def judge(case, coq, impl):
                     problems.append("Process(%d).net_connections(%r): %s" % (pid, kind, msg))
     if problems:
         return Verdict("violation", "; ".join(problems[:3]))
-    if k in ("state", "live") and coq["wf"] and finding_key(case, coq) is not None:
+    if k in ("state", "live", "fork") and coq["wf"] and finding_key(case, coq) is not None:
         # input class of a known finding: the implementation gave the demanded answer (the model holds the
         # defective one) -- accepted: "the modelled defective answer or the specification's"
         return Verdict("ok", "finding class, demanded answer")
@@ -931,7 +941,7 @@ def _run_tables(case, coq, env, psutil, fakeproc):
     fp = fakeproc.FakeProc(root)
     fakeproc.attach(psutil, root)
     os.makedirs(os.path.join(root, "net"))
-    if k in ("state", "live"):
+    if k in ("state", "live", "fork"):
         for name, content in zip(("tcp", "tcp6", "udp", "udp6", "unix"), coq["printed"]):
             if content is not None:
                 with open(os.path.join(root, "net", name), "wb") as f:
@@ -1027,18 +1037,97 @@ def _run_tables(case, coq, env, psutil, fakeproc):
             adds = final
         return [final, adds, list(access)]
 
-    os.listdir, os.readlink, _pslinux.open_text = fake_listdir, fake_readlink, logging_open_text
-    _pslinux.set = RecordingSet
-    try:
+    def all_calls():
         sys_res = [call(lambda kind=kind: psutil.net_connections(kind), False) for kind in case["kinds"]]
         proc_res = []
         for idx, ks in case["sel"]:
             pid = procs[idx]["pid"]
             proc_res.append([call(lambda kind=kind: psutil.Process(pid).net_connections(kind), True) for kind in ks])
+        return sys_res, proc_res
+
+    os.listdir, os.readlink, _pslinux.open_text = fake_listdir, fake_readlink, logging_open_text
+    _pslinux.set = RecordingSet
+    try:
+        if k == "fork":
+            sys_res, proc_res = _in_forked_child(case, procs, psutil, all_calls, root)
+        else:
+            sys_res, proc_res = all_calls()
     finally:
         os.listdir, os.readlink, _pslinux.open_text = real_listdir, real_readlink, real_open_text
         del _pslinux.set
     return [sys_res, proc_res]
+
+
+def _in_forked_child(case, procs, psutil, all_calls, root):
+    """Park a poller thread INSIDE retrieve() (its os.listdir blocks), os.fork() from the main thread, let the child make
+    all the calls under an alarm and report through a pipe.  Whatever process-wide state net_connections() keeps (a lock
+    held by the parked thread, which does not exist in the child) must not keep the child from answering."""
+    import select
+    import signal
+    import threading
+    parked, release = threading.Event(), threading.Event()
+    inner_listdir = os.listdir
+    poller_ident = []
+
+    def blocking_listdir(path=".", *a):
+        if poller_ident and threading.get_ident() == poller_ident[0] and not parked.is_set():
+            parked.set()
+            release.wait(30)
+        return inner_listdir(path, *a)
+
+    def poll():
+        poller_ident.append(threading.get_ident())
+        try:
+            if case["park"] == "process":
+                psutil.Process(procs[case["sel"][0][0]]["pid"]).net_connections("all")
+            else:
+                psutil.net_connections("all")
+        except Exception:  # noqa
+            pass
+    os.listdir = blocking_listdir
+    t = threading.Thread(target=poll, daemon=True)
+    t.start()
+    try:
+        if not parked.wait(10):
+            raise RuntimeError("C11 fork: the poller thread never reached os.listdir inside retrieve()")
+        r, w = os.pipe()
+        pid = os.fork()
+        if pid == 0:   # ---- child: only this thread exists; every lock the parked thread held is still 'held'
+            try:
+                os.close(r)
+                signal.signal(signal.SIGALRM, signal.SIG_DFL)     # a hang kills the child: nothing is written
+                signal.alarm(6)
+                os.listdir = inner_listdir
+                res = all_calls()
+                signal.alarm(0)
+                os.write(w, json.dumps(res).encode())
+            finally:
+                os._exit(0)
+        os.close(w)
+        data = b""
+        while True:
+            ready, _, _ = select.select([r], [], [], 15)
+            if not ready:
+                break
+            chunk = os.read(r, 1 << 16)
+            if not chunk:
+                break
+            data += chunk
+        os.close(r)
+        try:
+            os.kill(pid, 9)
+        except OSError:
+            pass
+        os.waitpid(pid, 0)
+    finally:
+        release.set()
+        t.join(10)
+        os.listdir = inner_listdir
+    if not data:
+        hang = T("HangInForkedChild")
+        return ([[hang, hang, []] for _ in case["kinds"]], [[[hang, hang, []] for _ in ks] for _, ks in case["sel"]])
+    sys_res, proc_res = json.loads(data.decode())
+    return sys_res, proc_res
 
 
 MANIFEST = {
